@@ -158,6 +158,8 @@ type CaseJSON struct {
 	Frames  []string `json:"frames"`
 	Payload string   `json:"payload"`
 	Text    string   `json:"text,omitempty"`
+	// Before: chains run earlier on the same runtime (only for failures that do not reproduce on a fresh one)
+	Before []CaseJSON `json:"before,omitempty"`
 }
 
 func (c *Chain) JSON() CaseJSON {
@@ -234,6 +236,10 @@ func (c *Chain) validate() error {
 		default:
 			if !e.funcLike() {
 				return fmt.Errorf("host edge %s cannot invoke a %s object", hostNames[c.Host], entryNames[e])
+			}
+			// ExportTo of a wrapped Go func into its own type returns the Go func itself: no boundary at all
+			if c.Host == hExportFn && e == eRefl || c.Host == hExportFnErr && (e == eReflErr || e == eReflErrWrap) {
+				return fmt.Errorf("ExportTo of a Go func into its own type is not a boundary")
 			}
 		}
 	}
